@@ -32,8 +32,9 @@ AllDevs == {"relu_clip_negmax", "clip_clip_disjoint", "relu_clip_no_dtype_raise"
             "const_tolerance", "overridable_read_as_const", "minmax_clip_rank",
             "clip_inputs_pre_opset11", "expand_rank_extension", "expand_binop_drops_attrs",
             "materialize_allowzero", "slice_split_odd", "split_num_outputs_pre_opset18",
-            "flatten_zero_dim", "reshape_matmul_ignores_inner_shapes"}
-AllFamilies == {"relus_clips", "min_max", "no_op", "dropout", "cast_cos", "scatter_static", "scatter_dynamic", "expand_binop", "materialize", "collapse_slices", "casts", "no_op_expand", "reshape_reshape", "flatten", "slice_split", "transposes", "unsqueeze2", "squeeze_reshape", "matmul_reshape"}
+            "flatten_zero_dim", "reshape_matmul_ignores_inner_shapes", "matmul_add_gemm_bias_shape",
+            "gemm_matmul_add_ignores_attrs", "gemm_matmul_add_bias_shape"}
+AllFamilies == {"relus_clips", "min_max", "no_op", "dropout", "cast_cos", "scatter_static", "scatter_dynamic", "expand_binop", "materialize", "collapse_slices", "casts", "no_op_expand", "reshape_reshape", "flatten", "slice_split", "transposes", "unsqueeze2", "squeeze_reshape", "matmul_reshape", "matmul_add_gemm", "gemm_matmul_add", "optional_bias"}
 Big == Menu = "thorough"
 
 RAISE == [dt |-> "RAISE", shape |-> <<>>, data |-> <<>>]
@@ -317,7 +318,7 @@ SD_Unknown(q) == q.decl = "none" \/ q.tdk = "tr_novi" \/ q.akind \in {"ginput", 
 -----------------------------------------------------------------------------
 (* expand_binop: _remove_expand_before_binary_op.py   Op(Expand(a, s), b) / Op(b, Expand(a, s))   *)
 EX_Ops == {"Add", "Sub", "Mul", "Div", "Mod", "Mod_fmod", "Pow", "Equal", "Greater", "GreaterOrEqual", "Less", "LessOrEqual",
-           "And", "Or", "Xor", "BitShift_L", "BitShift_R", "BitwiseAnd", "BitwiseOr", "BitwiseXor"}
+           "And", "Or", "Xor", "BitShift_L", "BitShift_R", "BitwiseAnd", "BitwiseOr", "BitwiseXor", "PRelu"}
 EX_Class(op) == CASE op \in {"And", "Or", "Xor"} -> "bool"
                   [] op \in {"BitShift_L", "BitShift_R"} -> "u8"
                   [] op \in {"BitwiseAnd", "BitwiseOr", "BitwiseXor"} -> "i32"
@@ -328,7 +329,7 @@ B2I(b) == IF b THEN 1 ELSE 0
 EX_F(op, u, v) ==      \* u: first operand of the node, v: second
    CASE op = "Add" -> u + v [] op = "Sub" -> u - v [] op = "Mul" -> u * v
      [] op = "Div" -> TruncDiv(u, v) [] op = "Mod" -> PyMod(u, v) [] op = "Mod_fmod" -> CMod(u, v)
-     [] op = "Pow" -> IPow(u, v)
+     [] op = "Pow" -> IPow(u, v) [] op = "PRelu" -> IF u < 0 THEN u * v ELSE u
      [] op = "Equal" -> B2I(u = v) [] op = "Greater" -> B2I(u > v) [] op = "GreaterOrEqual" -> B2I(u >= v)
      [] op = "Less" -> B2I(u < v) [] op = "LessOrEqual" -> B2I(u <= v)
      [] op = "And" -> u * v [] op = "Or" -> Max2(u, v) [] op = "Xor" -> (u + v) % 2
@@ -718,6 +719,101 @@ UU_Params(z) == {q \in UU_AllParams(0) : q.a1 >= -(Len(q.xs) + 1) /\ q.a1 <= Len
 SQ_Params(z) == {q \in SQ_AllParams(0) : ~q.axes \/ q.xs[1] = 1}
 
 -----------------------------------------------------------------------------
+(* Gemm on integers (alpha, beta integers); NoT = optional input absent *)
+NoT == [dt |-> "NONE", shape |-> <<>>, data |-> <<>>]
+Tr2(t) == Transpose(t, <<1, 0>>)
+Gemm(a, b, c, ta, tb, alpha, beta) ==
+   LET a2 == IF ta THEN Tr2(a) ELSE a
+       b2 == IF tb THEN Tr2(b) ELSE b
+   IN IF IsErr(a2) \/ IsErr(b2) THEN ERR
+      ELSE IF Rank(a2) # 2 \/ Rank(b2) # 2 THEN ERR
+      ELSE LET mm == MatMul(a2, b2) IN
+           IF IsErr(mm) THEN ERR
+           ELSE IF c = NoT THEN Map1(mm, mm.dt, LAMBDA u : alpha * u)
+           ELSE IF Rank(c) > 2 \/ BroadcastShape(c.shape, mm.shape) # mm.shape THEN ERR       \* C: unidirectional broadcast to (M, N)
+           ELSE Map2(mm, c, mm.dt, LAMBDA u, v : alpha * u + beta * v)
+
+(* matmul_add_gemm: _matmul_add_to_gemm.py   Add(MatMul([Transpose](a), [Transpose](b)), c) -> Gemm(a, b, c, transA, transB) *)
+MG_CShapes == {<<>>, <<1>>, <<3>>, <<2, 1>>, <<2, 3>>, <<1, 3>>, <<1, 1>>, <<1, 2, 3>>, <<2, 2, 3>>, <<1, 1, 3>>}
+MG_AllParams(z) ==
+   {[rule |-> r, as |-> as, bs |-> bs, cs |-> cs, decl |-> dc, extra |-> ex, perm |-> pm, cleft |-> cl] :
+        r \in {"plain", "ta", "tb", "tab"}, as \in {<<2, 2>>}, bs \in {<<2, 3>>}, cs \in MG_CShapes, dc \in {"static", "sym", "none"},
+        ex \in BOOLEAN, pm \in {"10", "absent", "01"}, cl \in BOOLEAN}
+   \cup {[rule |-> "plain", as |-> as, bs |-> bs, cs |-> cs, decl |-> "static", extra |-> FALSE, perm |-> "10", cleft |-> FALSE] :
+        as \in {<<2>>, <<2, 2>>, <<1, 2, 2>>, <<2, 2, 2>>}, bs \in {<<2>>, <<2, 3>>, <<1, 2, 3>>, <<2, 2, 3>>}, cs \in {<<>>, <<3>>, <<2, 3>>}}
+MG_TA(q) == q.rule \in {"ta", "tab"}
+MG_TB(q) == q.rule \in {"tb", "tab"}
+\* the operands as the pattern sees them: stored transposed when the rule has a Transpose in front
+MG_AS(q) == IF MG_TA(q) THEN <<q.as[2], q.as[1]>> ELSE q.as
+MG_BS(q) == IF MG_TB(q) THEN <<q.bs[2], q.bs[1]>> ELSE q.bs
+MG_A(q) == T("f32", MG_AS(q), [k \in 1..Numel(q.as) |-> k])
+MG_B(q) == T("f32", MG_BS(q), [k \in 1..Numel(q.bs) |-> 2 * k - 5])
+MG_C(q) == T("f32", q.cs, [k \in 1..Numel(q.cs) |-> 10 * k])
+MG_Perm(q) == CASE q.perm = "10" -> <<1, 0>> [] q.perm = "absent" -> <<1, 0>> [] q.perm = "01" -> <<0, 1>>
+MG_Params(z) == {q \in MG_AllParams(0) : (q.perm # "10" => q.rule # "plain") /\ (q.perm = "01" => q.as[1] = q.as[2] /\ q.rule = "ta")}
+MG_Lhs(q) == LET a == IF MG_TA(q) THEN Transpose(MG_A(q), MG_Perm(q)) ELSE MG_A(q)
+                 b == IF MG_TB(q) THEN Transpose(MG_B(q), MG_Perm(q)) ELSE MG_B(q)
+             IN Map2(MatMul(a, b), MG_C(q), "f32", LAMBDA u, v : u + v)
+\* inner nodes removable; Transpose must carry perm = [1, 0]; Add is not commuted
+MG_Match(q, devs) == ~q.extra /\ (q.rule = "plain" \/ q.perm = "10") /\ ~q.cleft
+MG_Check(q, devs) ==
+   IF q.decl = "none" \/ Len(q.as) # 2 \/ Len(q.bs) # 2 THEN "fail"
+   \* design: Gemm broadcasts C one way only, to (M, N)
+   ELSE IF "matmul_add_gemm_bias_shape" \notin devs /\ (Len(q.cs) > 2 \/ BroadcastShape(q.cs, <<q.as[1], q.bs[2]>>) # <<q.as[1], q.bs[2]>>) THEN "fail"
+   ELSE "ok"
+MG_Rewrite(q, devs) == Res(Gemm(MG_A(q), MG_B(q), MG_C(q), MG_TA(q), MG_TB(q), 1, 1), TRUE)
+MG_Unknown(q) == q.decl = "none"
+
+(* gemm_matmul_add: _gemm_to_matmul_add.py   Reshape(Gemm(Reshape(a, sa), b, c, alpha=1, beta=1), sc) -> Add(MatMul(a, b), c) *)
+GM_AllParams(z) ==
+   {[as |-> as, sa |-> sa, bs |-> <<2, 3>>, cs |-> cs, sc |-> sc, ta |-> ta, tb |-> tb, alpha |-> al, beta |-> be] :
+        as \in {<<2, 2>>, <<1, 2, 2>>, <<2, 2, 2>>, <<2, 1, 2>>}, sa \in {<<2, 2>>, <<4, 2>>, <<2, 4>>, <<1, 4>>},
+        cs \in {<<>>, <<3>>, <<1, 3>>, <<2, 3>>, <<4, 3>>, <<4, 1>>, <<2, 1>>},
+        sc \in {<<2, 3>>, <<1, 2, 3>>, <<2, 2, 3>>, <<2, 1, 3>>, <<4, 3>>, <<3, 2>>},
+        ta \in {NONE, 0, 1}, tb \in {NONE, 0, 1}, al \in {NONE, 1, 2}, be \in {NONE, 1, 2}}
+GM_A(q) == T("f32", q.as, [k \in 1..Numel(q.as) |-> k])
+\* with transB the stored b is [N, K]
+GM_BS(q) == IF q.tb = 1 THEN <<q.bs[2], q.bs[1]>> ELSE q.bs
+GM_B(q) == T("f32", GM_BS(q), [k \in 1..Numel(q.bs) |-> 2 * k - 5])
+GM_C(q) == T("f32", q.cs, [k \in 1..Numel(q.cs) |-> 10 * k])
+AttrI(v, dflt) == IF v = NONE THEN dflt ELSE v
+GM_Lhs(q) == IF Numel(q.sa) # Numel(q.as) THEN ERR
+             ELSE LET g == Gemm(Reshape(GM_A(q), q.sa, FALSE), GM_B(q), GM_C(q), q.ta = 1, q.tb = 1, AttrI(q.alpha, 1), AttrI(q.beta, 1))
+                  IN IF IsErr(g) THEN ERR ELSE Reshape(g, q.sc, FALSE)
+GM_Params(z) == {q \in GM_AllParams(0) : ~IsErr(GM_Lhs(q)) /\ ((q.alpha # 1 \/ q.beta # 1) => q.ta = NONE /\ q.tb = NONE)}
+\* the pattern spells out alpha = 1.0 and beta = 1.0; transA / transB are "other attributes"
+GM_Match(q, devs) == q.alpha = 1 /\ q.beta = 1
+GM_AsBM(q) == [as |-> q.as, bs |-> GM_BS(q), sc |-> q.sc]
+GM_Check(q, devs) ==
+   IF BM_Computed(GM_AsBM(q)) # q.sc THEN "fail"
+   \* design: the inner Reshape only flattens the leading dims of a, no transposition is requested, and c means the
+   \* same against [.., M, N] as against [rows, N]
+   ELSE IF "gemm_matmul_add_ignores_attrs" \notin devs /\ (q.ta = 1 \/ q.tb = 1) THEN "fail"
+   ELSE IF "reshape_matmul_ignores_inner_shapes" \notin devs /\ q.sa # <<Numel(q.as) \div Last(q.as), Last(q.as)>> THEN "fail"
+   ELSE IF "gemm_matmul_add_bias_shape" \notin devs /\ ~(Len(q.cs) <= 1 \/ q.cs[1] = 1 \/ Len(q.as) = 2) THEN "fail"
+   ELSE "ok"
+GM_Rewrite(q, devs) == Res(Map2(MatMul(GM_A(q), GM_B(q)), GM_C(q), "f32", LAMBDA u, v : u + v), TRUE)
+GM_Unknown(q) == FALSE
+
+(* optional_bias: _remove_optional_bias.py  Gemm / Conv / ConvTranspose (kernel size 1, so the convolution is a  *)
+(* per-position channel mix) with a constant all-zero bias                                                      *)
+OB_Params(z) == {[op |-> op, bias |-> bi, bkind |-> k, tb |-> tb] : op \in {"Gemm", "Conv", "ConvTranspose"}, bi \in {"zero", "nonzero"},
+                    k \in Kinds, tb \in BOOLEAN}
+OB_X(q) == IF q.op = "Gemm" THEN T("f32", <<2, 2>>, <<1, 2, 3, 4>>) ELSE T("f32", <<1, 2, 3>>, <<1, 2, 3, 4, 5, 6>>)
+OB_W(q) == IF q.op = "Gemm" THEN T("f32", <<2, 2>>, <<1, -1, 2, 3>>) ELSE T("f32", <<2, 2, 1>>, <<1, -1, 2, 3>>)
+OB_Bias(q) == T("f32", <<2>>, IF q.bias = "zero" THEN <<0, 0>> ELSE <<0, 5>>)
+\* kernel-1 convolution: y[0, m, l] = sum_c x[0, c, l] * w[m, c, 0]  (ConvTranspose: w[c, m, 0]) + b[m]
+OB_Conv(q, b) == LET x == OB_X(q) w == OB_W(q)
+                     Wt(m, c) == IF q.op = "Conv" THEN At(w, <<m, c, 0>>) ELSE At(w, <<c, m, 0>>)
+                     Op(idx) == SeqSum([c \in 1..2 |-> At(x, <<0, c - 1, idx[3]>>) * Wt(idx[2], c - 1)]) + (IF b = NoT THEN 0 ELSE b.data[idx[2] + 1])
+                 IN FromFn("f32", <<1, 2, 3>>, Op)
+OB_Eval(q, b) == IF q.op = "Gemm" THEN Gemm(OB_X(q), OB_W(q), b, FALSE, q.tb, 1, 1) ELSE OB_Conv(q, b)
+OB_Lhs(q) == OB_Eval(q, OB_Bias(q))
+OB_Check(q, devs) == IF ~HasConstValue(q.bkind, devs) THEN "fail" ELSE IF q.bias # "zero" THEN "fail" ELSE "ok"
+OB_Rewrite(q, devs) == Res(OB_Eval(q, NoT), TRUE)
+OB_Unknown(q) == q.bkind \in {"ginput", "ginit"}
+
+-----------------------------------------------------------------------------
 (* dispatch *)
 ParamsOf(f) == CASE f = "relus_clips" -> RC_Params(0)
       [] f = "min_max" -> MM_Params(0)
@@ -726,6 +822,9 @@ ParamsOf(f) == CASE f = "relus_clips" -> RC_Params(0)
       [] f = "cast_cos" -> CC_Params(0)
       [] f = "scatter_static" -> SC_Params(0)
       [] f = "scatter_dynamic" -> SD_Params(0)
+      [] f = "matmul_add_gemm" -> MG_Params(0)
+      [] f = "gemm_matmul_add" -> GM_Params(0)
+      [] f = "optional_bias" -> OB_Params(0)
       [] f = "expand_binop" -> EX_Params(0)
       [] f = "materialize" -> MR_Params(0)
       [] f = "collapse_slices" -> CS_Params(0)
@@ -745,6 +844,9 @@ LhsOf(f, q) == CASE f = "relus_clips" -> RC_Lhs(q)
       [] f = "cast_cos" -> CC_Lhs(q)
       [] f = "scatter_static" -> SC_Lhs(q)
       [] f = "scatter_dynamic" -> SD_Lhs(q)
+      [] f = "matmul_add_gemm" -> MG_Lhs(q)
+      [] f = "gemm_matmul_add" -> GM_Lhs(q)
+      [] f = "optional_bias" -> OB_Lhs(q)
       [] f = "expand_binop" -> EX_Lhs(q)
       [] f = "materialize" -> MR_Lhs(q)
       [] f = "collapse_slices" -> CS_Lhs(q)
@@ -764,6 +866,9 @@ MatchOf(f, q, d) == CASE f = "relus_clips" -> RC_Match(q, d)
       [] f = "cast_cos" -> CC_Match(q, d)
       [] f = "scatter_static" -> SC_Match(q, d)
       [] f = "scatter_dynamic" -> SD_Match(q, d)
+      [] f = "matmul_add_gemm" -> MG_Match(q, d)
+      [] f = "gemm_matmul_add" -> GM_Match(q, d)
+      [] f = "optional_bias" -> TRUE
       [] f = "expand_binop" -> EX_Match(q, d)
       [] f = "materialize" -> MR_Match(q, d)
       [] f = "collapse_slices" -> CS_Match(q, d)
@@ -783,6 +888,9 @@ CheckOf(f, q, d) == CASE f = "relus_clips" -> RC_Check(q, d)
       [] f = "cast_cos" -> CC_Check(q, d)
       [] f = "scatter_static" -> SC_Check(q, d)
       [] f = "scatter_dynamic" -> SD_Check(q, d)
+      [] f = "matmul_add_gemm" -> MG_Check(q, d)
+      [] f = "gemm_matmul_add" -> GM_Check(q, d)
+      [] f = "optional_bias" -> OB_Check(q, d)
       [] f = "expand_binop" -> EX_Check(q, d)
       [] f = "materialize" -> MR_Check(q, d)
       [] f = "collapse_slices" -> CS_Check(q, d)
@@ -802,6 +910,9 @@ RewriteOf(f, q, d) == CASE f = "relus_clips" -> RC_Rewrite(q, d)
       [] f = "cast_cos" -> CC_Rewrite(q, d)
       [] f = "scatter_static" -> SC_Rewrite(q, d)
       [] f = "scatter_dynamic" -> SD_Rewrite(q, d)
+      [] f = "matmul_add_gemm" -> MG_Rewrite(q, d)
+      [] f = "gemm_matmul_add" -> GM_Rewrite(q, d)
+      [] f = "optional_bias" -> OB_Rewrite(q, d)
       [] f = "expand_binop" -> EX_Rewrite(q, d)
       [] f = "materialize" -> MR_Rewrite(q, d)
       [] f = "collapse_slices" -> CS_Rewrite(q, d)
@@ -821,6 +932,9 @@ UnknownOf(f, q) == CASE f = "relus_clips" -> RC_Unknown(q)
       [] f = "cast_cos" -> CC_Unknown(q)
       [] f = "scatter_static" -> SC_Unknown(q)
       [] f = "scatter_dynamic" -> SD_Unknown(q)
+      [] f = "matmul_add_gemm" -> MG_Unknown(q)
+      [] f = "gemm_matmul_add" -> GM_Unknown(q)
+      [] f = "optional_bias" -> OB_Unknown(q)
       [] f = "expand_binop" -> EX_Unknown(q)
       [] f = "materialize" -> MR_Unknown(q)
       [] f = "collapse_slices" -> CS_Unknown(q)
@@ -846,6 +960,9 @@ AuxOf(f, q) ==
      [] f = "no_op_expand" -> [xd |-> Decl(q.decl, q.as)]
      [] f = "flatten" -> [xd |-> FL_Decl(q)]
      [] f = "squeeze_reshape" -> [xd |-> Decl(q.decl, q.xs)]
+     [] f = "matmul_add_gemm" -> [ad |-> Decl(q.decl, MG_AS(q)), bd |-> IF q.decl = "none" THEN MG_BS(q) ELSE Decl(q.decl, MG_BS(q)),
+                                  ashape |-> MG_AS(q), bshape |-> MG_BS(q)]
+     [] f = "gemm_matmul_add" -> [bshape |-> GM_BS(q)]
      [] f = "scatter_dynamic" -> [dd |-> SD_DataDecl(q), tdd |-> SD_TdDecl(q), perm |-> SD_Perm(q), tds |-> SD_TdShape(q), us |-> SD_UpdShape(q)]
      [] f = "scatter_static" -> [dd |-> SC_Decl(q.dd, q.ds), ud |-> SC_Decl(q.ud, SC_Us(q))]
      [] OTHER -> [none |-> 0]
@@ -872,6 +989,9 @@ DevsOf(f) == CASE f = "relus_clips" -> {"relu_clip_negmax", "clip_clip_disjoint"
                [] f = "flatten" -> {"flatten_zero_dim"}
                [] f = "slice_split" -> {"slice_split_odd", "split_num_outputs_pre_opset18"}
                [] f = "matmul_reshape" -> {"reshape_matmul_ignores_inner_shapes"}
+               [] f = "matmul_add_gemm" -> {"matmul_add_gemm_bias_shape"}
+               [] f = "gemm_matmul_add" -> {"gemm_matmul_add_ignores_attrs", "reshape_matmul_ignores_inner_shapes", "gemm_matmul_add_bias_shape"}
+               [] f = "optional_bias" -> {"overridable_read_as_const"}
                [] f \in {"collapse_slices", "no_op_expand", "reshape_reshape", "unsqueeze2", "squeeze_reshape", "scatter_dynamic"} -> {"overridable_read_as_const"}
                [] OTHER -> {}
 Why(f, q) == {d \in Deviations \cap DevsOf(f) : Attempt(f, q, Deviations \ {d}) # Attempt(f, q, Deviations)}
